@@ -96,6 +96,7 @@ func r7FunctionTokensNeedParen(w *World, r *Report, rule string) {
 	}
 	sym := NewSym(w)
 	sym.Expand = false
+	sym.ExpandReturns = true // the arm for names before '(' may live in a helper: its exits, under the caller's condition
 	n := 0
 	for _, row := range sym.retTable(f, 0) {
 		k, ok := intConstOf(row.val)
